@@ -182,7 +182,7 @@ def model_check(cls, group, tier, mo, want=None):
 # ------------------------------------------------------------------------------------------------
 # B3: a TLC counterexample as program + schedule for the real code
 # ------------------------------------------------------------------------------------------------
-ACT = re.compile(r'^State \d+: <(\w+)\(([^)]*)\) line')
+ACT = re.compile(r'^State \d+: <(\w+)(?:\(([^)]*)\))? line')
 
 
 def parse_cex(tlc_out):
@@ -191,7 +191,7 @@ def parse_cex(tlc_out):
     for line in tlc_out.splitlines():
         m = ACT.match(line.strip())
         if m:
-            args = [a.strip().strip('"') for a in m.group(2).split(',')] if m.group(2).strip() else []
+            args = [a.strip().strip('"') for a in m.group(2).split(',')] if (m.group(2) or '').strip() else []
             steps.append((m.group(1), args))
     return steps
 
@@ -412,3 +412,70 @@ def id_model_check(n, order, tier, want):
            'properties': props, 'exit_order': order}
     json.dump(res, open(cp, 'w'))
     return res
+
+
+# ------------------------------------------------------------------------------------------------
+# EpochManager: M (EpochImpl) with the exit order observed in the running code
+# ------------------------------------------------------------------------------------------------
+def epoch_model_check(group, tier, order):
+    """group: 'pin' (C04), 'mono' (C16), 'list' (C17).  Returns list of result dicts."""
+    bdir = vlib.build(2)
+    q = tier == 'quick'
+    base = {'Cap': 2, 'Init0': 2, 'MaxGuards': 2, 'ExitOrder': '"%s"' % order}
+    W2, W3 = {1, 2}, {1, 2, 3}
+    if group == 'pin':
+        cfgs = [('w2n1', dict(base, Workers=W2, N=1, MaxFwd=3, WithWalk=False, NoStall=False), ['C04', 'SlotOwner'], [], None)]
+        if not q:
+            cfgs += [('w3n2', dict(base, Workers=W3, N=2, MaxFwd=3, WithWalk=False, NoStall=False), ['C04', 'SlotOwner'], [], None),
+                     ('w2n2f5', dict(base, Workers=W2, N=2, MaxFwd=5, WithWalk=False, NoStall=False), ['C04', 'SlotOwner'], [], None)]
+    elif group == 'mono':
+        cfgs = [('w2n1', dict(base, Workers=W2, N=1, MaxFwd=4, WithWalk=False, NoStall=False), ['MinLeCur'], ['OneStep'], None)]
+        if not q:
+            cfgs += [('w2n2', dict(base, Workers=W2, N=2, MaxFwd=5, WithWalk=False, NoStall=False), ['MinLeCur'], ['OneStep'], None)]
+    else:
+        cfgs = [('w1n1-nostall', dict(base, Workers={1}, N=1, MaxFwd=6, WithWalk=True, NoStall=True), ['NodeSafe', 'OwnList'], [], 'StallBound'),
+                ('w1n1-free', dict(base, Workers={1}, N=1, MaxFwd=5, WithWalk=True, NoStall=False), ['NodeSafe', 'OwnList'], [], None)]
+        if not q:
+            cfgs += [('w2n2-nostall', dict(base, Workers=W2, N=2, MaxFwd=5, WithWalk=True, NoStall=True), ['NodeSafe', 'OwnList'], [],
+                      'StallBound')]
+    out = []
+    for tag, consts, invs, props, con in cfgs:
+        key = 'epmc|%s|%s|%s|%s|%s' % (os.path.basename(bdir), group, tag, order, _spec_hash())
+        cp = _cache_path('epmc', key)
+        if os.path.exists(cp):
+            out.append(json.load(open(cp)))
+            continue
+        t0 = time.time()
+        r = vlib.model_check('EpochImpl', 'ep_%s_%s' % (group, tag.replace('-', '_')), consts, [], invariants=invs, properties=props,
+                             constraint=con, workers=12, heap='12g', timeout=1700 if q else 7000, workdir=os.path.join(OUT, 'work', 'mc'))
+        if not r['ok'] and not r['violated']:
+            raise InfraError('EpochImpl model checking did not complete: ' + r['out'][-2000:])
+        cex = parse_cex(r['out']) if r['violated'] else None
+        res = {'tag': tag, 'ok': r['ok'], 'violated': r['violated'], 'states': r['distinct'], 'transitions': r['states'],
+               'wall': round(time.time() - t0, 1), 'invariants': invs, 'properties': props, 'constraint': con,
+               'consts': {k: (sorted(v) if isinstance(v, (set, frozenset)) else v) for k, v in consts.items()},
+               'cex': cex, 'cex_overlapped_forwards': cex_overlap(cex) if cex else None}
+        json.dump(res, open(cp, 'w'))
+        out.append(res)
+    return out
+
+
+def cex_overlap(cex):
+    """largest number of forwards a single guard creation overlaps in a counterexample of EpochImpl"""
+    active = False
+    inside = {}
+    best = 0
+    for act, args in cex:
+        if act == 'FLoad':
+            active = True
+            for w in inside:
+                inside[w] += 1
+                best = max(best, inside[w])
+        elif act == 'FMin':
+            active = False
+        elif act == 'CTest':
+            inside[args[0]] = 1 if active else 0
+            best = max(best, inside[args[0]])
+        elif act in ('WAt', 'Leave') or (act == 'EStore' and False):
+            inside.pop(args[0], None) if act == 'Leave' else None
+    return best
